@@ -129,16 +129,16 @@ theorem pp_infix1 (c : Char) : ∀ s : Str, isInfixC [c] s = (splitAtChar c s).i
       cases splitAtChar c r <;> rfl
 
 /-! ## slices -/
-theorem pp_slice_to (s : Str) (b : Nat) : sliceList s none (some (Int.ofNat b)) = s.take b := by
+theorem pp_slice_to (s : Str) (b : Nat) : sliceList s none (some ((b : Nat) : Int)) = s.take b := by
   simp only [sliceList, clampIndex, List.drop_zero, Nat.sub_zero]
-  rw [if_pos (show (0:Int) ≤ Int.ofNat b from Int.natCast_nonneg b), show (Int.ofNat b).toNat = b from rfl]
+  rw [if_pos (Int.natCast_nonneg b), Int.toNat_natCast]
   by_cases h : b ≤ s.length
   · rw [Nat.min_eq_left h]
   · rw [Nat.min_eq_right (by omega), List.take_of_length_le (Nat.le_refl _), List.take_of_length_le (by omega)]
 
-theorem pp_slice_from (s : Str) (b : Nat) : sliceList s (some (Int.ofNat b)) none = s.drop b := by
+theorem pp_slice_from (s : Str) (b : Nat) : sliceList s (some ((b : Nat) : Int)) none = s.drop b := by
   simp only [sliceList, clampIndex]
-  rw [if_pos (show (0:Int) ≤ Int.ofNat b from Int.natCast_nonneg b), show (Int.ofNat b).toNat = b from rfl]
+  rw [if_pos (Int.natCast_nonneg b), Int.toNat_natCast]
   rw [List.take_of_length_le (by simp only [List.length_drop]; omega)]
   by_cases h : b ≤ s.length
   · rw [Nat.min_eq_left h]
